@@ -737,3 +737,40 @@ func init() {
 		return Val{S: errIsTerm(x, args[0].S, args[1].S), T: types.Typ[types.Bool]}, nil
 	}
 }
+
+func init() {
+	// netip.ParseAddr(s): the address and whether it parses are functions of the string (spec functions parseAddr /
+	// parseAddrOK); nothing is said about WHICH address a string denotes.
+	regLib("net/netip.ParseAddr", func(x *FnExec, fr *frame, n *node, in ssa.Instruction, c *ssa.CallCommon, args []Val, reach, hint string) (Val, error) {
+		res := x.havocVal(hint, resultType(in, c), reach)
+		at := res.Tuple[0].T
+		srt := x.q.sortOf(at)
+		x.q.declareFun("lib_parseAddr", []string{"Str"}, srt)
+		x.q.declareFun("lib_parseAddrOK", []string{"Str"}, "Bool")
+		x.netipAddrT = at
+		x.q.assert(implies(reach, and(eq(res.Tuple[0].S, "(lib_parseAddr "+args[0].S+")"), eq(eq(res.Tuple[1].S, "inil"), "(lib_parseAddrOK "+args[0].S+")"))))
+		x.trusted["netip.ParseAddr is a function of its argument (same string, same address, same verdict)"] = true
+		return res, nil
+	})
+	specLibFuncs["parseAddr"] = func(x *FnExec, c *evalCtx, args []Val) (Val, error) {
+		at := x.netipAddrT
+		if at == nil {
+			te, err := newParser("netip.Addr").parseType()
+			if err != nil {
+				return Val{}, err
+			}
+			t, _, err := x.eng.resolveType(x, c.pkg, te)
+			if err != nil {
+				return Val{}, err
+			}
+			at = t
+		}
+		srt := x.q.sortOf(at)
+		x.q.declareFun("lib_parseAddr", []string{"Str"}, srt)
+		return Val{S: "(lib_parseAddr " + args[0].S + ")", T: at, Sort: srt}, nil
+	}
+	specLibFuncs["parseAddrOK"] = func(x *FnExec, c *evalCtx, args []Val) (Val, error) {
+		x.q.declareFun("lib_parseAddrOK", []string{"Str"}, "Bool")
+		return Val{S: "(lib_parseAddrOK " + args[0].S + ")", T: types.Typ[types.Bool]}, nil
+	}
+}
